@@ -565,8 +565,7 @@ Proof.
   pose proof (absf_in (kctr s)) as Hin.
   destruct (e_faults E (kctr s)) as [|e|]; cbn [absf] in Hin.
   - apply IH. exact R.
-  - split; [exact R|]. right; left. split; [reflexivity|]. apply existsb_exists.
-    exists (if is_perm e then AFPerm else AFOther). split; [exact Hin|destruct (is_perm e); reflexivity].
+  - apply IH. exact R.
   - split; [exact R|]. right; right. split; [reflexivity|]. apply existsb_exists. exists AFCrash. split; [exact Hin|reflexivity].
 Qed.
 
